@@ -67,6 +67,16 @@ Theorem C29_eq_str_except_known : forall t s, json_eq_str (JStr t) s = py_eq_str
 Proof. exact eq_str_on_strs. Qed.
 Print Assumptions C29_eq_str_except_known.
 
+(* the key under which build_json_path registers the bind parameter of a parameterised path determines the path: two paths of one query
+   that get the same key are the same path, so sharing the parameter is harmless (the key itself is compared with the real
+   build_json_path on every run) *)
+Theorem C29_paramkey_sound : forall p q, paramkey p = paramkey q -> p = q.
+Proof. exact paramkey_sound. Qed.
+Print Assumptions C29_paramkey_sound.
+Theorem C29_paramkey_same_path : forall p q, paramkey p = paramkey q -> forall env, resolve env p = resolve env q.
+Proof. exact paramkey_same_path. Qed.
+Print Assumptions C29_paramkey_same_path.
+
 Example C29_nonvacuous :
   parse_path ascii_only (json_path ascii_only [KKey [97]; KIdx (-12); KKey [100; 46; 101]; KKey []; KKey [49; 97]])
     = Some [KKey [97]; KIdx (-12); KKey [100; 46; 101]; KKey []; KKey [49; 97]]
